@@ -75,8 +75,9 @@ def ordered(rule, key, diff, **kwargs):
 
 
 def rewrite(rule, key, diff, **kwargs):
-    # Переписывает блок игнорируя предыдущее его состояние
-    if not diff[Op.REMOVED]:
+    # Переписывает блок игнорируя предыдущее его состояние: удаления не генерируются,
+    # но строка, заменившая другую с тем же ключом, должна быть записана
+    if diff[Op.ADDED] or diff[Op.MOVED] or diff[Op.AFFECTED] or not diff[Op.REMOVED]:
         yield from default(rule, key, diff, **kwargs)
 
 
